@@ -199,6 +199,16 @@ type actor struct {
 	res        map[string]bool
 	ddl        bool
 	events     []expEvent
+	// document objects this transaction passed to Collection.Update/Save (they stay dirty until the commit succeeds)
+	objs []stashedDoc
+}
+
+// stashedDoc is a document object that was written through the collection API inside a transaction.
+type stashedDoc struct {
+	d   int
+	f   string
+	v   int
+	doc *client.Document
 }
 
 type commitRec struct {
@@ -231,6 +241,10 @@ type env struct {
 	inf        info
 	clock  int
 	trace  []string
+	// failedObjs: per document, the object of the latest collection-API update whose transaction was discarded or
+	// failed to commit; reuseDoc: the object the running step passes again instead of fetching the document
+	failedObjs map[int]stashedDoc
+	reuseDoc   *client.Document
 	// started: the drawn interleaving is running (the committed starting point is built)
 	started bool
 }
@@ -517,6 +531,7 @@ func (e *env) doStep(st Step) *hx.Failure {
 			phase = "commit-ok"
 		} else {
 			phase = "commit-failed"
+			e.keepFailedObjs(ac)
 		}
 	case "discard":
 		if st.A == 0 || !ac.begun || ac.ended {
@@ -528,7 +543,17 @@ func (e *env) doStep(st Step) *hx.Failure {
 		ac.endClock = e.clock
 		e.label("end:discard")
 		phase = "discard"
+		e.keepFailedObjs(ac)
 	case "create", "update", "delete", "mkindex", "rmindex":
+		if st.K == "update" && st.Reuse && st.A == 0 {
+			if o, ok := e.failedObjs[st.D]; ok {
+				// outside any transaction, retry the update whose transaction did not commit, with the same object
+				delete(e.failedObjs, st.D)
+				st.R, st.F, st.V = 2, o.f, o.v
+				e.reuseDoc = o.doc
+				e.label("retry-with-the-document-object-of-a-failed-transaction")
+			}
+		}
 		if st.A != 0 {
 			if ac.ended {
 				return nil
@@ -777,9 +802,25 @@ type outcome struct {
 	row  map[string]any
 }
 
+// keepFailedObjs remembers the document objects of a transaction that ended without committing.
+func (e *env) keepFailedObjs(ac *actor) {
+	if e.failedObjs == nil {
+		e.failedObjs = map[int]stashedDoc{}
+	}
+	for _, o := range ac.objs {
+		e.failedObjs[o.d] = o
+	}
+	ac.objs = nil
+}
+
 func (e *env) mutation(ac *actor, st Step) (bool, *hx.Failure) {
 	v := e.view(ac)
 	exp := expect(v, st, e.c.Docs, ac.ro)
+	if e.reuseDoc != nil && !exp.apply {
+		// the document is not there (any more) or the write is refused: the ordinary path says how
+		e.reuseDoc = nil
+	}
+	defer func() { e.reuseDoc = nil }()
 	route := routeName(st.A, st.R)
 	if strings.HasSuffix(st.K, "index") {
 		route = routeName(st.A, 2)
@@ -1116,29 +1157,36 @@ func (e *env) execMutation0(ac *actor, st Step) (outcome, *hx.Failure) {
 		if err != nil {
 			hx.Harnessf("docID: %v", err)
 		}
-		doc, err := col.Get(e.callCtx(ac), docID, false)
-		if err != nil {
-			if notFound(err) {
-				return outcome{kind: "noop", err: err.Error()}, nil
-			}
-			return outcome{kind: "error", err: err.Error()}, nil
-		}
-		if st.F == "tag" {
-			err = doc.Set("tag", tagPool[st.V])
+		var doc *client.Document
+		if e.reuseDoc != nil {
+			// the retry idiom: the object that was passed to Update inside the failed transaction is passed again
+			doc, e.reuseDoc = e.reuseDoc, nil
 		} else {
-			err = doc.Set("age", int64(st.V))
-		}
-		if err != nil {
-			hx.Harnessf("doc.Set: %v", err)
+			doc, err = col.Get(e.callCtx(ac), docID, false)
+			if err != nil {
+				if notFound(err) {
+					return outcome{kind: "noop", err: err.Error()}, nil
+				}
+				return outcome{kind: "error", err: err.Error()}, nil
+			}
+			if st.F == "tag" {
+				err = doc.Set("tag", tagPool[st.V])
+			} else {
+				err = doc.Set("age", int64(st.V))
+			}
+			if err != nil {
+				hx.Harnessf("doc.Set: %v", err)
+			}
 		}
 		if st.Alt {
 			if err := col.Save(e.callCtx(ac), doc); err != nil {
 				return outcome{kind: "error", err: err.Error()}, nil
 			}
-			return outcome{kind: "applied"}, nil
-		}
-		if err := col.Update(e.callCtx(ac), doc); err != nil {
+		} else if err := col.Update(e.callCtx(ac), doc); err != nil {
 			return outcome{kind: "error", err: err.Error()}, nil
+		}
+		if ac.id != 0 {
+			ac.objs = append(ac.objs, stashedDoc{d: st.D, f: st.F, v: st.V, doc: doc})
 		}
 		return outcome{kind: "applied"}, nil
 
